@@ -935,8 +935,6 @@ KF = {
     "KF08b": lambda c, why, im, k_ok: _crash(why, "TypeError") and k_ok is not False and im.get("msg", "").startswith("unhashable type")
                                       and ({"set", "frozenset", "clist"} & set(c["features"])),
     # to_hashable() sorts the items of a dict datum (uniqueItems / sets over Any): keys of several classes cannot be ordered
-    "KF08c": lambda c, why, im, k_ok: _crash(why, "TypeError") and k_ok is not False and im.get("msg", "").startswith("'<' not supported")
-                                      and '"dn"' in json.dumps(c["d"]),
     # a `properties(pattern=...)` field matches its pattern against every remaining key: a non-string key raises TypeError
     "KF45": lambda c, why, im, k_ok: _crash(why, "TypeError") and k_ok is not False and "aggregate-pattern" in c["features"]
                                      and "expected string or bytes-like object" in im.get("msg", "") and '"dn"' in json.dumps(c["d"]),
